@@ -6,7 +6,7 @@ namespace GF
 theorem poly_coeff : ∀ (e : G), LeafOK e → ∀ i, (poly e).coeff i = coeff e i := by
   intro e
   induction e with
-  | fn f =>
+  | fn f n =>
     intro h i
     simp only [poly, coeff, finset_sum_coeff, coeff_C_mul_X_pow]
     rw [Finset.sum_ite_eq]
